@@ -410,6 +410,9 @@ func (fr *frame) jump(to *ssa.BasicBlock) cont {
 		if fr.backEdges[to] > fr.in.run.ex.Opt.Unwind {
 			panic(&runAbort{kind: "unwind", msg: fmt.Sprintf("loop unwinding limit %d exceeded at %s", fr.in.run.ex.Opt.Unwind, fr.in.siteStr(to.Instrs[0]))})
 		}
+	} else if fr.backEdges != nil {
+		// entering a loop header from outside starts a new unwinding count
+		delete(fr.backEdges, to)
 	}
 	fr.prev, fr.block = fr.block, to
 	return kJump
